@@ -80,8 +80,15 @@ def run_mutant(lane, m, props, workers, allprops):
             if pid == "C20":
                 continue
             t0 = time.time()
-            rc, out = sh([lane + "/verif", "run", pid, "quick"], cwd=lane + "/v", env=env, timeout=1800)
+            rc, out = sh([lane + "/verif", "run", pid, "quick"], cwd=lane + "/v", env=env, timeout=420)
             ran.append([pid, rc, round(time.time() - t0, 1)])
+            if rc == 124 or (rc == 2 and "case-timeout" in out):
+                # the mutant makes the code hang or crawl: the check does not end in time / ends inconclusive with case timeouts - not silent
+                subprocess.run("pkill -9 -f '%s/verif worker'" % lane, shell=True)
+                res["status"] = "killed"
+                res["killed_by"] = pid + ":hang"
+                res["ran"] = ran
+                return res
             if rc == 1 and "VIOLATION property=" in out:
                 res["status"] = "killed"
                 res["killed_by"] = pid
